@@ -1130,6 +1130,10 @@ func (db *DB) Execute(req *command.Request, xTime bool) ([]*command.ExecuteQuery
 // Any timeout set in the request is also applied, so the effective deadline is the
 // earlier of the context's deadline and the request's timeout.
 func (db *DB) ExecuteWithContext(ctx context.Context, req *command.Request, xTime bool) ([]*command.ExecuteQueryResponse, error) {
+	if req == nil {
+		// A request decoded from the log or the wire may carry no payload.
+		req = &command.Request{}
+	}
 	if req.DbTimeout > 0 {
 		var cancel context.CancelFunc
 		ctx, cancel = context.WithTimeout(ctx, time.Duration(req.DbTimeout))
@@ -1338,6 +1342,10 @@ func (db *DB) Query(req *command.Request, xTime bool) ([]*command.QueryRows, err
 // Any timeout set in the request is also applied, so the effective deadline is the
 // earlier of the context's deadline and the request's timeout.
 func (db *DB) QueryWithContext(ctx context.Context, req *command.Request, xTime bool) ([]*command.QueryRows, error) {
+	if req == nil {
+		// A request decoded from the log or the wire may carry no payload.
+		req = &command.Request{}
+	}
 	if req.DbTimeout > 0 {
 		var cancel context.CancelFunc
 		ctx, cancel = context.WithTimeout(ctx, time.Duration(req.DbTimeout))
@@ -1537,6 +1545,10 @@ func (db *DB) Request(req *command.Request, xTime bool) ([]*command.ExecuteQuery
 // using the given context. Any timeout set in the request is also applied, so the
 // effective deadline is the earlier of the context's deadline and the request's timeout.
 func (db *DB) RequestWithContext(ctx context.Context, req *command.Request, xTime bool) ([]*command.ExecuteQueryResponse, error) {
+	if req == nil {
+		// A request decoded from the log or the wire may carry no payload.
+		req = &command.Request{}
+	}
 	if req.DbTimeout > 0 {
 		var cancel context.CancelFunc
 		ctx, cancel = context.WithTimeout(ctx, time.Duration(req.DbTimeout))
